@@ -375,7 +375,7 @@ def stack_model(res, wd):
         def go():
             cfg = os.path.join(wd, "stack-%s-%d-%d.cfg" % (bug, qcap, cap))
             write_cfg(cfg, spec="LiveSpec", constants={"QCap": qcap, "Cap": cap, "MaxMetrics": 4, "Lens": "{1, 3, 6}", "Bug": bug},
-                      invariants=["Framing", "NoDupNoAlien", "EndToEnd", "FlushEmpties"], properties=["Eventually"])
+                      invariants=["Framing", "NoDupNoAlien", "EndToEnd", "FlushEmpties", "HandOverOrder"], properties=["Eventually"])
             r, out = tlc("Stack", cfg, wd, workers=4, timeout=1800, tag="stack" + bug)
             return r
         return tlc_cached("stack-%s-%d-%d" % (bug, qcap, cap), go, deps=["Stack.tla"])
@@ -384,10 +384,10 @@ def stack_model(res, wd):
         if r.get("violated") or r.get("errors") or not r.get("ok"):
             raise ToolError("Stack.tla violates its end-to-end properties: %s %s" % (r.get("violated"), r.get("errors")))
         res.add_tlc(r)
-    for b in ("drop-no-flush", "flush-noop"):
+    for b in ("drop-no-flush", "flush-noop", "flush-drains"):
         if not run(b)["violated"]:
             raise ToolError("Stack.tla mutant %s not refuted" % b)
-    res.notes["stack_model"] = "Stack.tla: end-to-end conservation/framing/flush + liveness for 2 configurations; mutants drop-no-flush, flush-noop refuted"
+    res.notes["stack_model"] = "Stack.tla: end-to-end conservation/framing/flush + liveness for 2 configurations; mutants drop-no-flush, flush-noop, flush-drains (second consumer) refuted"
 
 
 def stack_traces(res, tier, seed, wd):
